@@ -46,16 +46,24 @@ def main(tier):
     behs = r.prints["REPLAY"]
     res, scens = scenarios_from_writer("Writer.scen.cfg", "c08-scen")
     rich = [s for s in scens if len(s["files"]) >= 2 and any(len(i["offs"]) >= 2 for i in s["hid"]["info"])]
-    chosen = pick(rich or scens, 2 if tier == "quick" else 6, seed() + 37)
+    # ... one archive with an empty file, and (compression) one whose plaintext stream ends exactly on a block edge
+    empt = [s for s in scens if len(s["files"]) >= 2 and any(i["size"] == 0 for i in s["hid"]["info"])]
+    resa, scensa = scenarios_from_writer("Writer.c01.endalign.cfg", "c08-align")
+    aligned = [s for s in scensa if s["hid"]["pos"] % 48 == 0 and len(s["files"]) >= 1]
+    chosen = pick(rich or scens, 2 if tier == "quick" else 6, seed() + 37, rich_share=0) + empt[:1] + aligned[:1]
     stacks = ["raw", "comp", "enc", "comp+enc"]
     jobs = []
     for bi, b in enumerate(behs):
         # quick: every behaviour once, stackings and archives rotating; thorough: every behaviour on every stacking
         sts = stacks if tier == "thorough" else [stacks[bi % 4]]
-        if any(m["f"].startswith("cfoot") for m in b["muts"]):
+        if any(m["f"].startswith("cfoot") or m["f"] == "cblock_data" for m in b["muts"]):
             sts = [s for s in (["comp", "comp+enc"] if tier == "thorough" else [["comp", "comp+enc"][bi % 2]])]
         for st in sts:
             s = chosen[(bi + len(st)) % len(chosen)]
+            if any(m["c"] == "stream_end" for m in b["muts"]) and aligned:
+                s = aligned[0]
+            if any(m["f"] == "idx_noffs" for m in b["muts"]) and empt:
+                s = empt[0]
             jobs.append(dict(par=dict(stack=st, seed=seed() + 171, level=5), muts=b["muts"], ops=b["ops"], labels=s["labels"],
                              stream=s["stream"], names=s["hid"]["names"], info=s["hid"]["info"]))
     wd = workdir("c08")
